@@ -66,8 +66,8 @@ class World:
     def probe(self, name, n=1):
         self.probes[name] = self.probes.get(name, 0) + n
 
-    def violation(self, prop, cls, msg):
-        self.violations.append((prop, cls, msg))
+    def violation(self, prop, cls, msg, sig=None):
+        self.violations.append((prop, cls, msg, sig or {}))
 
     def latency(self, op, m):
         mode = self.lat_mode
@@ -183,6 +183,7 @@ class World:
                 super().__init__(max_workers=max_workers,
                                  thread_name_prefix=role)
                 self.role = role
+                self._work_queue = _RecordingWorkQueue(world, self)
                 self.occ = 0
                 self.max_occ = 0
                 self.submitted = 0
@@ -201,6 +202,7 @@ class World:
                         return fn(*a, **k)
                     finally:
                         ex.occ -= 1
+                run._task = fn
                 return super().submit(run, *args, **kwargs)
 
         return CountingExecutor
@@ -214,11 +216,6 @@ class World:
                 self.violation('C11', 'io-queue',
                                'io executor holds %d tasks > max_io_queue_size=%d'
                                % (ex.occ, cfg['max_io_queue_size']))
-            name = type(task).__name__
-            if name in ('IOWriteTask', 'IOStreamingWriteTask'):
-                mk = task._main_kwargs
-                self.io_submits.setdefault(id(mk['fileobj']), []).append(
-                    (mk.get('offset'), len(mk['data'])))
         elif ex.role == 'request':
             bound = cfg['max_request_queue_size'] + self.tag_allowance
             if ex.occ > bound:
@@ -301,6 +298,10 @@ class World:
         self.transfers.append(t)
         ty = spec['type']
         size = spec.get('size', 0)
+        if ty == 'skip':
+            t['key'] = 'skip%d' % idx
+            t['subs'] = []
+            return t
         if ty == 'upload':
             t['key'] = 'k%d' % idx
             off = spec.get('offset', 0) if spec['src'] == 'seekable' else 0
@@ -356,6 +357,8 @@ class World:
         m = self.manager
         spec = t['spec']
         ty = spec['type']
+        if ty == 'skip':
+            return None
         extra = dict(spec.get('extra_args') or {})
         t['submit_stamp'] = self.sim.stamp()
         if ty == 'upload':
@@ -381,6 +384,16 @@ class World:
             v = t['future'].result()
             t['outcome'] = ('ok', v, self.sim.stamp())
         except KeyboardInterrupt:
+            # TransferFuture.result() cancelled this transfer itself
+            ev = {'how': 'interrupt-result', 't': t['idx'], 'status': None,
+                  'exc_before': None, 'stamp': self.sim.stamp(),
+                  'calls_before': None, 'msg': '', 'exc_type': 'CancelledError',
+                  'exact': False, 'first': t['cancel'] is None}
+            if t['cancel'] is None:
+                t['cancel'] = ev
+            t['dirty'] = True
+            self.dirty = True
+            self.cancel_events.append(ev)
             raise
         except BaseException as e:   # noqa
             t['outcome'] = ('exc', e, self.sim.stamp())
@@ -399,18 +412,28 @@ class World:
             self._prepare_transfer(spec)
         self.manager = TransferManager(self.s3, cfg, osutil,
                                        executor_cls=self.make_executor_cls())
+        self._wrap_controller()
         script = sc.get('driver') or self.default_script()
-        use_with = any(a[0] == 'with_raise' for a in script)
+        use_with = any(a[0] in ('with_raise', 'use_with') for a in script)
         try:
             if use_with:
+                n0 = [None]
                 try:
                     with self.manager:
-                        self._run_script(script)
+                        try:
+                            self._run_script(script)
+                        finally:
+                            n0[0] = sim.interrupts_delivered
                 except _WithExit as e:
                     self.driver_log.append((sim.stamp(), 'with_exit_done', repr(e)))
                 except KeyboardInterrupt as e:
                     self.driver_log.append((sim.stamp(), 'with_exit_kbi', repr(e)))
-                self.shutdown_return = sim.stamp()
+                if sim.interrupts_delivered == n0[0]:
+                    self.shutdown_return = sim.stamp()
+                else:
+                    # Ctrl-C landed inside __exit__ itself: it did not return
+                    # normally, so no barrier is claimed for this run
+                    self.probe('interrupt-inside-exit')
             else:
                 self._run_script(script)
         except kernel.SimAbort:
@@ -420,6 +443,7 @@ class World:
             self.driver_exc = (e, traceback.format_exc())
         # everything is over: final collection (no blocking expected)
         sim.interrupt_at_step = None
+        sim.atomic_tid = None
         self.after_shutdown_stamp = sim.stamp()
         for t in self.transfers:
             if t['future'] is not None and t['outcome'] is None:
@@ -436,6 +460,8 @@ class World:
         for a in script:
             op = a[0]
             self.driver_log.append((sim.stamp(), op, a[1:] if len(a) > 1 else None))
+            if op == 'use_with':
+                continue
             if op == 'submit':
                 self._submit(self.transfers[a[1]])
             elif op == 'wait_step':
@@ -445,15 +471,24 @@ class World:
                 if t['future'] is None:
                     continue
                 coord = t['future']._coordinator
+                atomic = bool(a[2]) if len(a) > 2 else True
+                if atomic:
+                    sim.begin_atomic()
                 ev = {'how': 'future', 't': t['idx'], 'status': coord.status,
+                      'exc_before': coord._exception,
                       'stamp': sim.stamp(), 'calls_before': self._calls_of(t['idx']),
-                      'msg': '', 'exc_type': 'CancelledError'}
+                      'msg': '', 'exc_type': 'CancelledError', 'exact': False}
+                first = t['cancel'] is None
                 t['cancel'] = t['cancel'] or ev
                 t['dirty'] = True
                 self.dirty = True
                 self.cancel_events.append(ev)
-                t['future'].cancel()
-                ev['returned'] = sim.stamp()
+                try:
+                    t['future'].cancel()
+                finally:
+                    ev['exact'] = sim.end_atomic() if atomic else False
+                    ev['returned'] = sim.stamp()
+                    ev['first'] = first
             elif op == 'result':
                 self._collect(self.transfers[a[1]])
             elif op == 'interrupt_at':
@@ -461,32 +496,40 @@ class World:
             elif op == 'shutdown':
                 kw = a[1] if len(a) > 1 else {}
                 if kw.get('cancel'):
-                    self._note_mass_cancel('shutdown', kw.get('cancel_msg', ''),
-                                           'CancelledError')
+                    self._arm_mass_cancel('shutdown', kw.get('cancel_msg', ''),
+                                          'CancelledError',
+                                          a[2] if len(a) > 2 else True)
                 try:
                     self.manager.shutdown(**kw)
                     self.shutdown_return = sim.stamp()
                 except KeyboardInterrupt as e:
-                    self.shutdown_return = sim.stamp()
+                    # interrupted shutdown: it raised, no barrier claimed
+                    self.probe('interrupt-inside-shutdown')
+                    sim.atomic_tid = None
                     self.driver_log.append((sim.stamp(), 'shutdown_kbi', repr(e)))
                 except kernel.SimAbort:
                     raise
                 except BaseException as e:   # noqa
                     import traceback
-                    self.shutdown_return = sim.stamp()
                     self.shutdown_exc = (e, traceback.format_exc())
                     self.driver_log.append((sim.stamp(), 'shutdown_raised', repr(e)))
-                    # make sure the run can end: plain shutdown
+                    sim.atomic_tid = None
+                    # shutdown did not return, it raised: no barrier was
+                    # established.  Let the run end with a plain shutdown.
                     try:
                         self.manager.shutdown()
+                        self.shutdown_return = sim.stamp()
+                    except kernel.SimAbort:
+                        raise
                     except BaseException:   # noqa
                         pass
             elif op == 'with_raise':
                 kind, msg = a[1], a[2]
                 exc = KeyboardInterrupt(msg) if kind == 'kbi' else _WithExit(msg)
                 m = str(exc) or repr(exc)
-                self._note_mass_cancel(
-                    'with', m, 'CancelledError' if kind == 'kbi' else 'FatalError')
+                self._arm_mass_cancel(
+                    'with', m, 'CancelledError' if kind == 'kbi' else 'FatalError',
+                    a[3] if len(a) > 3 else True)
                 raise exc
             elif op == 'fresh':
                 t = self._prepare_transfer(a[1])
@@ -502,20 +545,67 @@ class World:
     def _calls_of(self, tidx):
         return sum(1 for r in self.s3.log if r.get('t') == tidx)
 
-    def _note_mass_cancel(self, how, msg, exc_type):
-        sim = self.sim
+    def _arm_mass_cancel(self, how, msg, exc_type, atomic):
+        """The driver is about to cancel everything through the manager.  The
+        snapshot of every transfer's status is taken when the controller's
+        cancel() is entered (harness-side wrapper); with `atomic` the driver's
+        scheduling points are suspended from here until it first waits, so the
+        snapshot is the exact state each coordinator is cancelled in."""
         self.dirty = True
+        self._pending_mass = {'how': how, 'msg': msg, 'exc_type': exc_type,
+                              'atomic': atomic}
+        self._wrap_controller()
+        if atomic:
+            self.sim.begin_atomic()
+
+    def _wrap_controller(self):
+        ctl = self.manager._coordinator_controller
+        if getattr(ctl, '_sim_wrapped', False):
+            return
+        orig = ctl.cancel
+        world = self
+
+        def cancel(*a, **k):
+            world._mass_cancel_enter(a, k)
+            try:
+                return orig(*a, **k)
+            finally:
+                world._mass_cancel_exit()
+        ctl.cancel = cancel
+        ctl._sim_wrapped = True
+
+    def _mass_cancel_enter(self, a, k):
+        sim = self.sim
+        pend = getattr(self, '_pending_mass', None) or {
+            'how': 'interrupt', 'msg': 'KeyboardInterrupt()',
+            'exc_type': 'CancelledError', 'atomic': False}
+        self._pending_mass = None
+        self.dirty = True
+        evs = []
         for t in self.transfers:
             if t['future'] is None:
                 continue
             coord = t['future']._coordinator
-            ev = {'how': how, 't': t['idx'], 'status': coord.status,
+            ev = {'how': pend['how'], 't': t['idx'], 'status': coord.status,
+                  'exc_before': coord._exception,
                   'stamp': sim.stamp(), 'calls_before': self._calls_of(t['idx']),
-                  'msg': msg, 'exc_type': exc_type}
+                  'msg': pend['msg'], 'exc_type': pend['exc_type'],
+                  'exact': False, 'args': repr((a, k))[:80]}
+            ev['first'] = t['cancel'] is None
             if t['cancel'] is None:
                 t['cancel'] = ev
             t['dirty'] = True
             self.cancel_events.append(ev)
+            evs.append(ev)
+        self._mass_evs = evs
+
+    def _mass_cancel_exit(self):
+        sim = self.sim
+        intact = sim.atomic_tid is not None and sim.atomic_tid == sim.current.tid
+        for ev in getattr(self, '_mass_evs', []):
+            ev['exact'] = intact
+            ev['returned'] = sim.stamp()
+        self._mass_evs = []
 
     # ---- C06 namespace invariant, evaluated after every fs mutation ---------------
     def _dest_invariant(self, fs, op, path):
@@ -538,19 +628,49 @@ class World:
 
     # ---- run ------------------------------------------------------------------------
     def run(self):
-        gc_was = gc.isenabled()
+        # the cyclic GC stays off while simulated threads exist (weakref
+        # callbacks and finalisers would run at collector-chosen instants);
+        # garbage is collected between runs, with no simulation active
         gc.disable()
         try:
             self.sim.run(self._driver)
         finally:
             simstd.reset_between_runs()
-            if gc_was:
-                gc.enable()
+            collect_between_runs()
         return self
+
+
+_runs_since_collect = [0]
+
+
+def collect_between_runs(every=40):
+    _runs_since_collect[0] += 1
+    if _runs_since_collect[0] >= every:
+        _runs_since_collect[0] = 0
+        gc.collect()
 
 
 class _WithExit(Exception):
     pass
+
+
+class _RecordingWorkQueue(simstd.simqueue.SimpleQueue):
+    """The executor's work queue; records the order in which IO writes are
+    actually enqueued (the append is atomic with the record)."""
+
+    def __init__(self, world, ex):
+        super().__init__()
+        self._w = world
+        self._ex = ex
+
+    def put(self, item, block=True, timeout=None):
+        if item is not None and self._ex.role == 'io':
+            task = getattr(getattr(item, 'fn', None), '_task', None)
+            if type(task).__name__ in ('IOWriteTask', 'IOStreamingWriteTask'):
+                mk = task._main_kwargs
+                self._w.io_submits.setdefault(id(mk['fileobj']), []).append(
+                    (mk.get('offset'), len(mk['data'])))
+        return super().put(item, block, timeout)
 
 
 def _short(b):
